@@ -1213,6 +1213,11 @@ func (d *DotGit) checkReferenceAndTruncate(f billy.File, old *plumbing.Reference
 	if ref.Hash() != old.Hash() {
 		return storage.ErrReferenceHasChanged
 	}
+	// Symbolic references all have the zero hash: compare their targets.
+	if ref.Type() == plumbing.SymbolicReference && old.Type() == plumbing.SymbolicReference &&
+		ref.Target() != old.Target() {
+		return storage.ErrReferenceHasChanged
+	}
 	_, err = f.Seek(0, io.SeekStart)
 	if err != nil {
 		return err
